@@ -36,6 +36,7 @@ struct Dec {
   std::vector<alignment_iter_t *> openAlignIters;
   int extraRefs = 0;
   std::vector<alignment_t *> retainedAlignments;
+  bool cfgGrammar = false; // the configuration itself names a grammar: every reinitialisation loads it again
   bool hostile = false; // dictionary with hostile spellings loaded
   bool french = false; // reinitialised with the French model: the English grammar / word menus do not apply
   bool broken = false; // a reinit failed: only another reinit or free is meaningful
@@ -579,7 +580,7 @@ Verdict propC09(Choices &c, Ctx &ctx) {
       int rc = featOnly ? decoder_reinit_feat(d, NULL) : decoder_reinit(d, NULL);
       // (the feature computation cannot be replaced under an utterance in progress: refusing then is fine)
       if (rc < 0 && !(featOnly && x.utt == Dec::STARTED)) res = fail("reinit-failed", Msg() << "reinit with the unchanged configuration returned " << rc, h.str());
-      if (!featOnly) x.hasGrammar = false; // the grammar came from the API, not the configuration: it is gone
+      if (!featOnly) x.hasGrammar = rc >= 0 && x.cfgGrammar; // a grammar that came from the API, not the configuration, is gone
       resync(x);
       if (x.utt == Dec::ENDED && !featOnly) x.utt = Dec::IDLE;
       break;
@@ -616,6 +617,7 @@ Verdict propC09(Choices &c, Ctx &ctx) {
       ctx.label(valid ? "reinit:new-config" : "reinit:unusable-config");
       x.broken = rc < 0;
       x.hasGrammar = rc >= 0 && gInitHasGrammar;
+      x.cfgGrammar = x.hasGrammar;
       x.utt = Dec::IDLE;
       x.french = rc >= 0 && french;
       x.hostile = false;
@@ -686,6 +688,7 @@ Verdict propC09(Choices &c, Ctx &ctx) {
       x.hasGrammar = false;
       x.broken = false;
       x.french = false;
+      x.cfgGrammar = false;
       x.utt = Dec::IDLE;
       break;
     }
